@@ -200,7 +200,26 @@ structure EdgePlugin where
   hasRestrictions : Bool
   deriving Repr, Inhabited
 
-/-- `EdgeRtreeInputPluginBuilder::build` + `EdgeRtreeInputPlugin::new`, in the code's order of evaluation -/
+/-- `EdgeRtreeInputPlugin::new`: the files are read in this order — road classes, restrictions, geometries —
+then the geometries are checked (no empty linestring, as many as there are road classes) -/
+def edgeNew (files : EdgeFiles) (tol : Option (Nat × DistanceUnit)) (hasRc hasVr : Bool) : Except CfgErr EdgePlugin :=
+  if hasRc && files.roadClass.isNone then .error .io
+  else if hasVr && !files.restrictionsOk then .error .frontier
+  else
+    match files.geometry with
+    | none => .error .io
+    | some g =>
+      if files.emptyLinestring then .error .userConfig
+      else if hasRc && files.roadClass != some g then .error .userConfig
+      else .ok ⟨tol, hasRc, hasVr⟩
+
+/-- the optional `road_class_parser` entry deserialises -/
+def cfgParserOk (cfg : Json) : Bool :=
+  match cfg.get? "road_class_parser" with
+  | none => true
+  | some v => parserOk v
+
+/-- `EdgeRtreeInputPluginBuilder::build`, in the code's order of evaluation, then `EdgeRtreeInputPlugin::new` -/
 def edgeBuilder (cfg : Json) (files : EdgeFiles) : Except CfgErr EdgePlugin :=
   match cfgString cfg "geometry_input_file" with
   | .error e => .error e
@@ -217,20 +236,8 @@ def edgeBuilder (cfg : Json) (files : EdgeFiles) : Except CfgErr EdgePlugin :=
           match cfgUnit cfg with
           | .error e => .error e
           | .ok u =>
-            let parserGood := match cfg.get? "road_class_parser" with
-              | none => true
-              | some v => parserOk v
-            if !parserGood then .error .serde
-            -- `EdgeRtreeInputPlugin::new`
-            else if rc.isSome && files.roadClass.isNone then .error .io
-            else if vr.isSome && !files.restrictionsOk then .error .frontier
-            else
-              match files.geometry with
-              | none => .error .io
-              | some g =>
-                if files.emptyLinestring then .error .userConfig
-                else if rc.isSome && files.roadClass != some g then .error .userConfig
-                else .ok ⟨resolveTolerance t u, rc.isSome, vr.isSome⟩
+            if !cfgParserOk cfg then .error .serde
+            else edgeNew files (resolveTolerance t u) rc.isSome vr.isSome
 
 /-! ### haversine -/
 
